@@ -136,6 +136,30 @@ SEEDS.update({
           'a task whose clause yields fail / succeed completes while the workflow is paused'),
 })
 
+# fourth wave
+SEEDS.update({
+ 'C20c': ('handle_expired_actions skips expired actions whose task is already completed',
+          'the task finishes (timeout policy) while its synchronous action is still RUNNING and the executor has gone silent'),
+ 'C01d': ('ReverseWorkflowController.may_complete_workflow: the completion check is registered only for the target or for failed tasks',
+          'a reverse workflow in which a task requires two parallel tasks, one fails and is delivered first, the other succeeds later'),
+ 'C03d': ('RegularAction.complete: the "already completed" guard forgets CANCELLED',
+          'an action cancelled by the operator, then a late result for the same action execution'),
+ 'C05d': ('evaluate_workflow_output: input outranks the workflow context (globals, vars)',
+          'a variable that is a workflow input and is published globally (or defined in vars), read by the output clause'),
+ 'C06d': ('_increase_capacity without its upper bound',
+          'with-items over sub-workflows under a concurrency limit and an item result message delivered twice'),
+ 'C07d': ('_has_more_iterations counts completed-or-running instead of accepted-or-running executions',
+          'a with-items task started a second time (retry / rerun) with more items to run than the concurrency limit'),
+ 'C08d': ('_fail_task_if_incomplete only fails RUNNING / DELAYED tasks',
+          'timeout together with pause-before (task IDLE when the timer fires) or a paused sub-workflow task'),
+ 'C10d': ('pause_workflow skips the sub-workflows of completed tasks',
+          'a sub-workflow task failed by its timeout while the child still runs, error handled, then the root is paused'),
+ 'C12d': ('Task.set_state: `if processed:` instead of `if processed is not None:`',
+          'rerun, pause while the new attempt is in flight, attempt completes during the pause, resume'),
+ 'C13d': ('_process_store_jobs appends the job even when the capture compare-and-swap failed',
+          'two instances whose store polls overlap (select, other instance captures, capture fails) - e.g. after the scheduling instance died'),
+})
+
 
 def main():
     for sid, (change, needs) in SEEDS.items():
